@@ -384,6 +384,21 @@ class _NP:
         return _Grid2(shape)
 
 
+def documented_source(r, c):
+    """Documented panel layout (docstring of hd61202.render_combined_image; Rust twin
+    lcd.rs:map_chip_col_to_display_col): left half = right chip columns 0-63 then left chip columns
+    0-55 (pages 0-3); right half = left chip 55..0 then right chip 63..0 of pages 4-7 (mirrored).
+    Returns (chip index, page, column, bit); chip 0 = left, 1 = right."""
+    pg, bit = r // 8, r % 8
+    if c < 64:
+        return (1, pg, c, bit)
+    if c < 120:
+        return (0, pg, c - 64, bit)
+    if c < 176:
+        return (0, 4 + pg, 55 - (c - 120), bit)
+    return (1, 4 + pg, 63 - (c - 176), bit)
+
+
 def unit_pixels(unit):
     """get_display_buffer with every VRAM byte symbolic: each of the 32x240 cells is `1 - bit` of
     exactly one VRAM bit, the map is injective, and hence one data write changes at most the
@@ -467,6 +482,9 @@ def unit_pixels(unit):
                 obs.append(core.Obligation(name + ":is-one-bit", "proved", backend="z3"))
                 obs.append(core.Obligation(name + ":row-geometry", "proved" if ok_geo else "failed", backend="evaluation",
                                            detail=None if ok_geo else f"source {src}"))
+                ok_doc = src == documented_source(r, c)
+                obs.append(core.Obligation(name + ":documented-layout", "proved" if ok_doc else "failed", backend="evaluation",
+                                           detail=None if ok_doc else f"source {src}, documented {documented_source(r, c)}"))
                 if src in seen:
                     obs.append(core.Obligation(name + ":injective", "failed", backend="evaluation", detail=f"same VRAM bit as {seen[src]}"))
                 else:
@@ -539,6 +557,8 @@ def unit_pixels_enum(unit):
         bycol.setdefault((ci, p, c), set()).add(col)
         if b != r % 8 or p % 4 != r // 8:
             bad.append(f"bit {(ci, p, c, b)} shown at row {r}")
+        if documented_source(r, col) != (ci, p, c, b):
+            bad.append(f"cell {(r, col)} driven by {(ci, p, c, b)}, documented layout says {documented_source(r, col)}")
     if any(len(v) > 1 for v in bycol.values()):
         bad.append("one VRAM byte feeds more than one display column")
     expect = 32 * (on[1] * 128 + on[0] * 112)
